@@ -383,7 +383,8 @@ Qed.
 
 Lemma pr_conn_ok x c e ports w : In x (m_insts m) -> In c (i_conns x) -> target_ports d (i_of x) = Ok ports ->
   assoc (fst c) ports = Some w -> conn1_is x c e ->
-  exists cw, 1 <= w /\ Forall (leaf_ok m1) (sx_leaves e) /\ xwidth e = Ok cw /\ (cw = w \/ (0 < i_n x /\ cw = i_n x * w)).
+  exists cw, 1 <= w /\ Forall (leaf_ok m1) (sx_leaves e) /\ xwidth e = Ok cw /\ (cw = w \/ (0 < i_n x /\ cw = i_n x * w)) /\
+             (forall q, as_ref m (snd c) = Some q -> key_width d m q = Ok cw).
 Proof.
   intros Hx Hc Hp Hw Hi. pose proof (Hpw x ports (fst c, w) Hx Hp (assoc_In _ _ _ Hw)) as Hw1. cbn [snd] in Hw1.
   destruct (pr_inst x Hx) as [ports' [Hp' [_ [Hwc _]]]]. rewrite Hp in Hp'. inversion Hp'; subst ports'.
@@ -407,20 +408,22 @@ Proof.
         { unfold key_width. rewrite Hfr. cbn [ofopt bind]. unfold port_width. rewrite Hpr. cbn [bind]. rewrite Hw3. reflexivity. }
         pose proof (conn_width d km m keys Hwm Hfrag Hkeys q r Hqk Hrk (c_trans _ _ _ _ _ (c_sym _ _ _ _ Cg) Cr)) as Hcw2.
         rewrite Hkw, Hkr in Hcw2. inversion Hcw2; subst w3. unfold single in Hsr. destruct Hcase3 as [->|[Hpos _]]; [reflexivity|lia].
-      * exact Hcase.
+      * split; [exact Hcase|]. intros q0 Hq0. rewrite Hr in Hq0. inversion Hq0; subst q0. exact Hkw.
     + (* the group's implicit signal *)
       subst e. assert (a_width a = wl) as Haw by congruence. rewrite Haw in *. split; [|split].
       * constructor; [|constructor]. rewrite <- Haw. eapply leaf_ok_new. exact Ht.
       * cbn [xwidth]. destruct (wl <? 1) eqn:E; [lia|reflexivity].
-      * exact Hcase.
+      * split; [exact Hcase|]. intros q0 Hq0. rewrite Hr in Hq0. inversion Hq0; subst q0. exact Hkw.
   - (* a no-connect: a private signal *)
     subst e. rewrite Hpwx in Hw2. inversion Hw2; subst w2. destruct (tbl_In _ _ _ Ht) as [Ha _]. pose proof (alloc_width_pos a Ha) as Hap.
     exists (a_width a). split; [exact Hw1|]. split; [constructor; [eapply leaf_ok_new; exact Ht|constructor]|]. split.
     + cbn [xwidth]. destruct (a_width a <? 1) eqn:E; [lia|reflexivity].
-    + rewrite Hwd. unfold single. destruct (i_n x <=? 0) eqn:E; [left; reflexivity|right; split; lia].
+    + split; [rewrite Hwd; unfold single; destruct (i_n x <=? 0) eqn:E; [left; reflexivity|right; split; lia]|].
+      intros q0 Hq0. congruence.
   - (* untouched *)
     subst e. rewrite <- as_nc_is_nc, Hn in Hnc. destruct Hnc as [_ [cw [Hcw Hcase]]]. exists cw. split; [exact Hw1|].
-    split; [eapply Forall_impl; [intros lw; apply leaf_ok_m1|]; apply (pr_leaves_sig x c Hx Hc Hr Hn)|]. auto.
+    split; [eapply Forall_impl; [intros lw; apply leaf_ok_m1|]; apply (pr_leaves_sig x c Hx Hc Hr Hn)|]. split; [exact Hcw|]. split; [exact Hcase|].
+    intros q0 Hq0. congruence.
 Qed.
 
 (* ---- the connections the pass adds ---- *)
@@ -500,7 +503,7 @@ Proof.
     + apply Forall_forall. intros c1 Hc1. destruct (Forall2_In_r _ _ _ c1 Fc Hc1) as [c [Hc Hrc]].
       destruct (pr_rewrite_conn x c Hx Hc) as [e [Hre Hci]]. rewrite Hrc in Hre. inversion Hre; subst c1.
       destruct (wf_conn_inv _ _ _ _ _ (Hwc c Hc)) as [w [Hw _]].
-      destruct (pr_conn_ok x c e ports w Hx Hc Hp Hw Hci) as [cw [H1 [H2 [H3 H4]]]].
+      destruct (pr_conn_ok x c e ports w Hx Hc Hp Hw Hci) as [cw [H1 [H2 [H3 [H4 _]]]]].
       exists w, cw. cbn [fst snd]. rewrite Hnn. auto.
     + apply Forall_forall. intros [p e] Hin. destruct (pr_added_inv x p e Hx Hin) as [id [a [nm [g [w [Ht [Hk [-> [Hs [Hnone [Hpw' [Haw _]]]]]]]]]]]].
       assert (assoc p ports = Some w) as Hw by (unfold port_width in Hpw'; rewrite Hp in Hpw'; cbn [bind] in Hpw'; apply ofopt_ok in Hpw'; exact Hpw').
@@ -553,5 +556,170 @@ Proof.
     destruct (tbl_In _ _ _ Hin) as [Ha _]. pose proof (alloc_width_pos a Ha). lia.
   - apply Forall_forall. intros x1 Hx1. cbn [m1 m_insts] in Hx1. destruct (Forall2_In_r _ _ _ x1 Hins Hx1) as [x [Hx Hr]].
     eapply pr_inst_ok; eassumption.
+Qed.
+
+(* ---- looking a port up after the pass ---- *)
+Lemma rewrite_conn_fst x c c1 : rewrite_conn m keys table x c = Ok c1 -> fst c1 = fst c.
+Proof.
+  unfold rewrite_conn. destruct (as_ref m (snd c)); [destruct (res m keys table k); cbn [bind]; intros H; inversion H; reflexivity|].
+  destruct (as_nc m (snd c)); [destruct (find_nc table (i_name x) (fst c)); cbn [ofopt bind]; intros H; inversion H; reflexivity|intros H; inversion H; reflexivity].
+Qed.
+
+Lemma pr_lookup_conn x x1 port cx : In x (m_insts m) -> rewrite_inst m keys table x = Ok x1 -> assoc port (i_conns x) = Some cx ->
+  exists e, assoc port (i_conns x1) = Some e /\ conn1_is x (port, cx) e.
+Proof.
+  intros Hx Hr Ha. destruct (rewrite_inst_inv x x1 Hr) as [_ [_ [_ [cs [Hcs Fc]]]]].
+  destruct (assoc_Forall2 _ _ _ port cx Fc (fun c c1 H => eq_sym (rewrite_conn_fst x c c1 H)) Ha) as [e [He Hrc]].
+  exists e. rewrite Hcs, assoc_app, He. split; [reflexivity|].
+  destruct (pr_rewrite_conn x (port, cx) Hx (assoc_In _ _ _ Ha)) as [e2 [He2 Hi]]. cbn [fst] in He2. rewrite Hrc in He2. inversion He2; subst e2. exact Hi.
+Qed.
+
+Lemma pr_lookup_added x x1 port : In x (m_insts m) -> rewrite_inst m keys table x = Ok x1 -> single x = true ->
+  assoc port (i_conns x) = None -> In (i_name x, port) (mentioned m) ->
+  exists id a nm g w, assoc port (i_conns x1) = Some (XSig id (a_width a)) /\ In (id, a, nm) table /\
+    a_kind a = AGroup g (i_name x, port) /\ port_width d x port = Ok w /\ a_width a = w /\ gid m keys (i_name x, port) = Some g /\
+    res m keys table (i_name x, port) = Ok (XSig id (a_width a)).
+Proof.
+  intros Hx Hr Hs Ha Hq. destruct (rewrite_inst_inv x x1 Hr) as [_ [_ [_ [cs [Hcs Fc]]]]].
+  assert (assoc port cs = None) as Hn.
+  { apply assoc_notin_None. rewrite <- (Forall2_map_eq _ fst fst _ _ Fc (fun c c1 H => eq_sym (rewrite_conn_fst x c c1 H))). apply assoc_None_notin. exact Ha. }
+  (* the entry that res uses for this port is the one added *)
+  set (q := (i_name x, port)) in *.
+  destruct (pr_res q Hq) as [g [e [Hqk [Hg [Hgk [Cg [Hres Hi]]]]]]].
+  assert (pconn m q = None) as Hp by (unfold pconn, q; cbn [fst snd]; rewrite (pr_find x Hx); exact Ha).
+  assert (nxt m q = q) as Hfix by (unfold nxt, next; rewrite Hp; reflexivity).
+  pose proof (attr_fixed d km m keys Hwm Hfrag Hkeys g q Hgk Hqk Hfix Cg) as Hattr.
+  destruct Hi as [Hsrc _ _|id a nm o He Ht Hk Hok Co Hw]; [rewrite Hattr, Hp in Hsrc; discriminate|].
+  destruct (tbl_In _ _ _ Ht) as [Hal _]. destruct plan_facts as [Hgood _]. rewrite Forall_forall in Hgood.
+  pose proof (Hgood a Hal) as G. unfold alloc_good in G. rewrite Hk in G. destruct G as [_ [_ [namer [Hgr _]]]].
+  unfold group_res in Hgr. rewrite Hattr, Hp in Hgr. inversion Hgr; subst o namer.
+  assert (exists w, port_width d x port = Ok w /\ a_width a = w) as [w [Hpw' Haw]].
+  { unfold key_width in Hw. unfold q in Hw. cbn [fst snd] in Hw. rewrite (pr_find x Hx) in Hw. cbn [ofopt bind] in Hw. eauto. }
+  assert (In (port, XSig id (a_width a)) (added_conns table x)) as Hin.
+  { unfold added_conns. apply in_flat_map. exists (id, a, nm). split; [exact Ht|].
+    unfold added_one. cbn [fst snd]. rewrite Hk. unfold q. cbn [fst snd]. rewrite String.eqb_refl, Hs, Ha. left. reflexivity. }
+  exists id, a, nm, g, w. split.
+  - rewrite Hcs, assoc_app, Hn. apply assoc_nodup_In'; [apply pr_added_NoDup; exact Hx|exact Hin].
+  - subst e. auto 10.
+Qed.
+
+(* the connection of a port that is referred to IS what a reference to it stands for *)
+Lemma pr_target_conn q xq xq1 : In q (mentioned m) -> find_inst (m_insts m) (fst q) = Some xq -> rewrite_inst m keys table xq = Ok xq1 ->
+  exists e, assoc (snd q) (i_conns xq1) = Some e /\ res m keys table q = Ok e.
+Proof.
+  intros Hq Hf Hr. destruct (find_inst_In _ _ _ Hf) as [Hx Hn].
+  destruct (pr_res q Hq) as [g [e [Hqk [Hg [Hgk [Cg [Hres Hi]]]]]]].
+  pose proof Hqk as Hqk2. apply (keys_In d km m keys Hwm Hkeys) in Hqk2. destruct Hqk2 as [x2 [w2 [Hf2 [Hs2 _]]]]. rewrite Hf in Hf2. inversion Hf2; subst x2.
+  assert (q = (i_name xq, snd q)) as Eq by (destruct q; cbn [fst snd] in *; congruence).
+  destruct (assoc (snd q) (i_conns xq)) as [cx|] eqn:Ea.
+  - destruct (pr_lookup_conn xq xq1 (snd q) cx Hx Hr Ea) as [e1 [He1 Hci]]. exists e1. split; [exact He1|].
+    destruct Hci as [q2 g2 Hr2 Hq2 Hq2k Hg2 Hg2k Cg2 Hres2 _|site id a nm w Hr2 Hn2 _ _ _ _ _|Hr2 Hn2 He].
+    + (* q refers on to q2: the same group, hence the same resolution *)
+      cbn [snd] in Hr2. assert (next m q = Some q2) as Hnx by (unfold next, pconn; rewrite Hf, Ea; exact Hr2).
+      pose proof (gid_next d km m keys Hwm Hfrag Hkeys q q2 Hqk Hnx) as Eg. unfold res in *. rewrite Eg. exact Hres2.
+    + (* q no-connected but referred to: impossible *)
+      exfalso. cbn [snd] in Hn2. apply (root_not_nc q q cx site Hq Hqk (c_refl _ _ _)); [unfold pconn; rewrite Hf; exact Ea|exact Hn2].
+    + (* q has the group's declared connection: it is the root *)
+      cbn [snd] in *. subst e1. assert (pconn m q = Some cx) as Hp by (unfold pconn; rewrite Hf; exact Ea).
+      assert (nxt m q = q) as Hfix by (unfold nxt, next; rewrite Hp, Hr2; reflexivity).
+      pose proof (attr_fixed d km m keys Hwm Hfrag Hkeys g q Hgk Hqk Hfix Cg) as Hattr.
+      unfold res. rewrite Hg. cbn [ofopt bind]. unfold group_res. rewrite Hattr, Hp, Hr2, Hn2. reflexivity.
+  - rewrite Eq in Hq. destruct (pr_lookup_added xq xq1 (snd q) Hx Hr Hs2 Ea Hq) as [id [a [nm [g2 [w [He1 [_ [_ [_ [_ [_ Hres2]]]]]]]]]]].
+    exists (XSig id (a_width a)). split; [exact He1|]. rewrite Eq. exact Hres2.
+Qed.
+
+(* ---- local targets after the pass ---- *)
+Lemma m1_local x1 e port k w e1 : assoc port (i_conns x1) = Some e1 -> port_width d x1 port = Ok w -> 0 <= k < w ->
+  elem_ok x1 e = true -> Forall (leaf_ok m1) (sx_leaves e1) ->
+  forall cw, xwidth e1 = Ok cw -> (cw = w \/ (0 < i_n x1 /\ cw = i_n x1 * w)) ->
+  exists bits id j s, xbits e1 = Ok bits /\ zlen bits = cw /\ pick bits (conn_index x1 cw w e k) = Ok (id, j) /\
+    assocN id leaves1 = Some (LSig s) /\ local_tgt d m1 x1 e port k = Ok (LtSig s j).
+Proof.
+  intros Ha Hw Hk He Hl cw Hcw Hcase. destruct (xwidth_ok_xbits _ _ Hcw) as [bits [Hb Hlen]].
+  destruct (conn_bit_some d x1 e port k e1 bits w Ha Hb Hw Hk He) as [_ Hidx]; [rewrite Hlen; exact Hcase|].
+  destruct (pick_ok _ _ Hidx) as [[id j] [Hpk _]]. pose proof (pick_In _ _ _ Hpk) as Hin.
+  destruct (xbits_inside _ _ Hb _ _ Hin) as [wl [Hlv Hj]]. rewrite leaves_sx_leaves in Hlv.
+  rewrite Forall_forall in Hl. destruct (Hl _ Hlv) as [s [Hs _]]. cbn [fst] in Hs.
+  exists bits, id, j, s. split; [exact Hb|]. split; [exact Hlen|]. rewrite <- Hlen. split; [exact Hpk|]. split; [exact Hs|].
+  eapply local_tgt_intro; try eassumption. rewrite Hlen. exact Hcase.
+Qed.
+
+Lemma pr_port_facts x port w : In x (m_insts m) -> port_width d x port = Ok w ->
+  exists ports, target_ports d (i_of x) = Ok ports /\ assoc port ports = Some w.
+Proof.
+  intros Hx Hw. unfold port_width in Hw. destruct (target_ports d (i_of x)) as [ps|]; cbn [bind] in Hw; [|discriminate].
+  apply ofopt_ok in Hw. eauto.
+Qed.
+
+(* old connections stay joined: a port that referred to another port now has the same target as that port *)
+Lemma pr_fwd x x1 e port k w t0 : In x (m_insts m) -> rewrite_inst m keys table x = Ok x1 -> elem_ok x e = true ->
+  port_width d x port = Ok w -> 0 <= k < w -> local_tgt d m x e port k = Ok t0 ->
+  match t0 with
+  | LtSig s j => local_tgt d m1 x1 e port k = Ok (LtSig s j)
+  | LtPort i' p' j =>
+      exists xq xq1 s1 j1 wq, find_inst (m_insts m) i' = Some xq /\ single xq = true /\ rewrite_inst m keys table xq = Ok xq1 /\
+        port_width d xq p' = Ok wq /\ 0 <= j < wq /\
+        local_tgt d m1 x1 e port k = Ok (LtSig s1 j1) /\ local_tgt d m1 xq1 0 p' j = Ok (LtSig s1 j1)
+  | LtSelf => True
+  end.
+Proof.
+  intros Hx Hr He Hw Hk Ht0. destruct (rewrite_inst_inv x x1 Hr) as [Hn1 [Hnn1 [Ho1 _]]].
+  assert (port_width d x1 port = Ok w) as Hw1 by (unfold port_width in *; rewrite Ho1; exact Hw).
+  assert (elem_ok x1 e = true) as He1 by (unfold elem_ok in *; rewrite Hnn1; exact He).
+  destruct (pr_port_facts x port w Hx Hw) as [ports [Hp Hpw']].
+  destruct (assoc port (i_conns x)) as [cx|] eqn:Ea.
+  2:{ unfold local_tgt, conn_bit in Ht0. rewrite Ea in Ht0. cbn [bind] in Ht0. inversion Ht0. exact I. }
+  pose proof (assoc_In _ _ _ Ea) as Hc.
+  destruct (pr_lookup_conn x x1 port cx Hx Hr Ea) as [e1 [He1a Hci]].
+  destruct (pr_conn_ok x (port, cx) e1 ports w Hx Hc Hp Hpw' Hci) as [cw [Hw1' [Hl1 [Hcw1 [Hcase1 Hkq]]]]].
+  rewrite <- Hnn1 in Hcase1.
+  destruct (m1_local x1 e port k w e1 He1a Hw1 Hk He1 Hl1 cw Hcw1 Hcase1) as [bits1 [id1 [j1 [s1 [Hb1 [Hlen1 [Hpk1 [Hlf1 Hlt1]]]]]]]].
+  destruct Hci as [q g Hrq Hq Hqk Hg Hgk Cg Hres Hri|site id a nm w2 Hrq Hnq _ _ _ _ _|Hrq Hnq He1e].
+  - (* a reference *)
+    cbn [snd] in Hrq. destruct (as_ref_shape _ _ _ Hrq) as [idr [wl [-> Hlr]]].
+    specialize (Hkq q Hrq). cbn [snd] in Hkq.
+    assert (next m (i_name x, port) = Some q) as Hnx by (unfold next, pconn; cbn [fst snd]; rewrite (pr_find x Hx), Ea; exact Hrq).
+    destruct (next_wf d km m keys Hwm Hfrag Hkeys (i_name x, port) q x (pr_find x Hx) Hnx) as [w0 [wl' [Hw0 [_ [Hkw [Hwl1 [Hcase [idr' [Ea' _]]]]]]]]].
+    cbn [snd] in Hw0, Ea'. rewrite Ea in Ea'. inversion Ea'; subst idr' wl'. rewrite Hw in Hw0. inversion Hw0; subst w0.
+    assert (cw = wl) as -> by congruence. clear Hkq.
+    (* the old target *)
+    assert (xbits (XSig idr wl) = Ok (sig_bits idr wl)) as Hb0 by (cbn [xbits]; destruct (wl <? 1) eqn:E; [lia|reflexivity]).
+    destruct (conn_bit_some d x e port k _ _ w Ea Hb0 Hw Hk He) as [Hcb0 Hidx0]; [rewrite sig_bits_len by lia; exact Hcase|].
+    rewrite sig_bits_len in Hcb0, Hidx0 by lia. set (jj := conn_index x wl w e k) in *.
+    assert (pick (sig_bits idr wl) jj = Ok (idr, jj)) as Hpk0.
+    { unfold sig_bits. rewrite pick_map. destruct (pick_ok (iota (Z.to_nat wl) 0 1) jj) as [y [Hy Hny]]; [unfold zlen; rewrite iota_length; lia|].
+      rewrite Hy. rewrite iota_nth in Hny by lia. inversion Hny; subst y. f_equal. f_equal. lia. }
+    unfold local_tgt in Ht0. rewrite Hcb0, Hpk0 in Ht0. cbn [bind] in Ht0. rewrite Hlr in Ht0. cbn [ofopt bind] in Ht0. inversion Ht0; subst t0.
+    (* the instance referred to *)
+    pose proof Hqk as Hqk2. apply (keys_In d km m keys Hwm Hkeys) in Hqk2. destruct Hqk2 as [xq [wq [Hfq [Hsq Hwq]]]].
+    destruct (find_inst_In _ _ _ Hfq) as [Hxq _]. destruct (Forall2_In_l _ _ _ xq Hins Hxq) as [xq1 [_ Hrq1]].
+    assert (wq = wl) as -> by (unfold key_width in Hkw; rewrite Hfq in Hkw; cbn [ofopt bind] in Hkw; congruence).
+    destruct (pr_target_conn q xq xq1 Hq Hfq Hrq1) as [e2 [He2 Hres2]]. rewrite Hres in Hres2. inversion Hres2; subst e2.
+    destruct (rewrite_inst_inv xq xq1 Hrq1) as [_ [Hnnq [Hoq _]]].
+    assert (port_width d xq1 (snd q) = Ok wl) as Hwq1 by (unfold port_width in *; rewrite Hoq; exact Hwq).
+    assert (elem_ok xq1 0 = true) as Heq1 by (unfold elem_ok; rewrite Hnnq; unfold single in Hsq; rewrite Hsq; reflexivity).
+    destruct (m1_local xq1 0 (snd q) jj wl e1 He2 Hwq1 ltac:(lia) Heq1 Hl1 wl Hcw1 (or_introl eq_refl)) as [bits2 [id2 [j2 [s2 [Hb2 [_ [Hpk2 [Hlf2 Hlt2]]]]]]]].
+    rewrite Hb1 in Hb2. inversion Hb2; subst bits2.
+    assert (conn_index xq1 wl wl 0 jj = jj) as Ej by (unfold conn_index; rewrite Z.eqb_refl; reflexivity). rewrite Ej in Hpk2.
+    assert (conn_index x1 wl w e k = jj) as Ej1 by reflexivity. rewrite Ej1 in Hpk1. rewrite Hpk1 in Hpk2. inversion Hpk2; subst id2 j2.
+    rewrite Hlf1 in Hlf2. inversion Hlf2; subst s2.
+    exists xq, xq1, s1, j1, wl. repeat (split; [first [assumption|lia]|]). exact Hlt2.
+  - (* a no-connect: the old target is the port itself *)
+    cbn [snd] in *. destruct (is_nc_shape m cx site) as [idn [wn [-> Hln]]]; [rewrite <- as_nc_is_nc; exact Hnq|].
+    pose proof (Hfrag x (port, XSig idn wn) Hx Hc) as Hfr. unfold conn_frag in Hfr. cbn [snd fst] in Hfr. rewrite Hln, Hw in Hfr. assert (wn = w) as -> by lia.
+    assert (xbits (XSig idn w) = Ok (sig_bits idn w)) as Hb0 by (cbn [xbits]; destruct (w <? 1) eqn:E; [lia|reflexivity]).
+    destruct (conn_bit_some d x e port k _ _ w Ea Hb0 Hw Hk He) as [Hcb0 Hidx0]; [left; apply sig_bits_len; lia|].
+    destruct (pick_ok _ _ Hidx0) as [[id' j'] [Hpk0 _]]. unfold local_tgt in Ht0. rewrite Hcb0, Hpk0 in Ht0. cbn [bind] in Ht0.
+    apply pick_In in Hpk0. unfold sig_bits in Hpk0. apply in_map_iff in Hpk0. destruct Hpk0 as [j'' [Ej _]]. inversion Ej; subst id'.
+    rewrite Hln in Ht0. cbn [ofopt bind] in Ht0. inversion Ht0. exact I.
+  - (* untouched *)
+    cbn [snd] in *. subst e1.
+    destruct (conn_bit_some d x e port k cx bits1 w Ea Hb1 Hw Hk He) as [Hcb0 _]; [rewrite Hlen1, Hnn1 in *; exact Hcase1|].
+    rewrite Hlen1 in Hcb0. unfold conn_index in *. unfold local_tgt in Ht0. rewrite Hcb0, Hpk1 in Ht0. cbn [bind] in Ht0.
+    (* the leaf is an old one *)
+    pose proof (pick_In _ _ _ Hpk1) as Hin. destruct (xbits_inside _ _ Hb1 _ _ Hin) as [wl [Hlv _]]. rewrite leaves_sx_leaves in Hlv.
+    pose proof (pr_leaves_sig x (port, cx) Hx Hc Hrq Hnq) as Hls. rewrite Forall_forall in Hls. destruct (Hls _ Hlv) as [s0 [Hs0 _]]. cbn [fst] in Hs0.
+    rewrite Hs0 in Ht0. cbn [ofopt bind] in Ht0. inversion Ht0; subst t0.
+    pose proof (leaves1_old _ _ Hs0) as Hs1. rewrite Hlf1 in Hs1. inversion Hs1; subst s0. exact Hlt1.
 Qed.
 End PRModule.
